@@ -673,3 +673,78 @@ def check_matcher_contract(mtable):
         if (b, a) in vals and (m > 0) != (vals[(b, a)] > 0):
             return "M(a,b) > 0 but M(b,a) = 0"
     return None
+
+
+# ------------------------------------------------------------------ C17
+def oracle_readcmap(line, out):
+    op, kv = kv_of(line)
+    unit = int(kv["unit"])
+    rows = [tuple(int(x) for x in t.split(":")) for t in kv.get("ROWS", "").split(",") if t]
+    ids = ints(kv.get("ids", ""))
+    sel = [r for r in rows if not ids or r[0] in ids]
+    mids = sorted({r[0] for r in sel})
+    if any(not [r for r in sel if r[0] == m and r[1] == 0] for m in mids):
+        return None if out.startswith("ERR") else None   # molecule without end marker: outside "syntactically valid"
+    if out.startswith("ERR"):
+        return f"exception {out} on a syntactically valid file"
+    want = []
+    for m in mids:
+        pos = sorted(r[2] for r in sel if r[0] == m and r[1] != 0)
+        if not pos:
+            continue
+        em = next(r for r in sel if r[0] == m and r[1] == 0)
+        want.append(f"{m}:{em[2] // unit}:0:{','.join(map(str, pos))}")
+    if out != "/".join(want):
+        return f"reader returned {out[:200]!r}, the file says {'/'.join(want)[:200]!r}"
+    return None
+
+
+def oracle_trim(line, out):
+    op, kv = kv_of(line)
+    mid, length, shift, pos = map_of(kv["M"])
+    o = map_of(out)
+    if not pos:
+        return None if o == (mid, length, shift, pos) else "trimming an empty map changed it"
+    if o[0] != mid or len(o[3]) != len(pos):
+        return "trim changed the id or the number of labels"
+    if o[3][0] != 0:
+        return "first label not at 0 after trimming"
+    if [b - a for a, b in zip(o[3], o[3][1:])] != [b - a for a, b in zip(pos, pos[1:])]:
+        return "trim changed an inter-label distance"
+    if o[1] != pos[-1] - pos[0] + 1:
+        return "trimmed length is not last - first + 1"
+    return None
+
+
+def oracle_labels(line, out):
+    op, kv = kv_of(line)
+    m = map_of(kv["M"])
+    want = labels_of(m, kv["rev"] == "1")
+    got = [tuple(int(x) for x in t.split(":")) for t in out.split(" ") if t]
+    return None if got == want else "label numbering / mirroring differs from the stated convention"
+
+
+# ------------------------------------------------------------------ C18
+def oracle_xrow(line, out):
+    op, kv = kv_of(line)
+    if out.startswith("ERR"):
+        return f"exception {out}"
+    written, _, read = out.partition(" READ ")
+    f = written.split("|")
+    if len(f) != 15:
+        return f"{len(f)} columns written"
+    pairs = kv.get("P", "")
+    want_pairs = "".join(f"({t.replace(':', ',')})" for t in pairs.split(",") if t)
+    c100 = int(kv["c100"])
+    conf = ("-" if c100 < 0 else "") + f"{abs(c100) // 100}.{abs(c100) % 100:02d}"
+    want = [kv["eid"], kv["q"], kv["r"], kv["qs"] + ".0", kv["qe"] + ".0", kv["rs"] + ".0", kv["re"] + ".0",
+            "-" if kv["rev"] == "1" else "+", conf, kv.get("hit", ""), kv["ql"] + ".0", kv["rl"] + ".0",
+            "True" if kv["rest"] == "1" else "False", "1", want_pairs]
+    if f != want:
+        bad = [i for i in range(15) if f[i] != want[i]]
+        return f"written column(s) {bad} differ: {[f[i] for i in bad][:3]} vs {[want[i] for i in bad][:3]}"
+    want_read = "|".join([kv["eid"], kv["q"], kv["r"], kv["qs"], kv["qe"], kv["rs"], kv["re"], kv["rev"], str(c100),
+                          kv.get("hit", ""), kv["ql"], kv["rl"], pairs])
+    if read != want_read:
+        return f"read back {read[:200]!r}, written record is {want_read[:200]!r}"
+    return None
